@@ -256,6 +256,46 @@ def random_pairs(rnd, n_pairs, nmax):
     return out
 
 
+SKELETONS = [("spiro23hexane", "C1CC12CCC2"), ("spiropentane", "C1CC12CC2"), ("bicyclobutane", "C1C2C1C2"),
+             ("housane", "C1CC2C1C2"), ("norbornane", "C1CC2CCC1C2"), ("bicyclo222octane", "C1CC2CCC1CC2"),
+             ("adamantane", "C1C2CC3CC1CC(C2)C3"), ("cubane", "C12C3C4C1C5C2C3C45"), ("prismane", "C12C3C1C4C2C34"),
+             ("twistane", "C1CC2CC3CCC1C2C3"), ("bicyclo211hexane", "C1CC2CC1C2"), ("propellane", "C1C23CC13C2"),
+             ("spiro33heptane", "C1CC2(C1)CCC2"), ("tricyclohexane", "C1C2C1C1CC21")]
+
+
+def skeleton_pairs(rnd, per_skeleton):
+    """hydrogen-free polycyclic carbon skeletons (all atoms carry one label): every atom after the first few closes a ring,
+    so the candidates for it have to be adjacent to the images of SEVERAL matched neighbours; each skeleton against
+    renumbered copies of itself and against a copy with one bond moved"""
+    from rdkit import Chem
+    out = []
+    for name, smi in SKELETONS:
+        m = Chem.MolFromSmiles(smi)
+        if m is None:
+            continue
+        n = m.GetNumAtoms()
+        bonds0 = [(b.GetBeginAtomIdx(), b.GetEndAtomIdx()) for b in m.GetBonds()]
+        for k in range(per_skeleton):
+            p1 = list(range(n)); rnd.shuffle(p1)
+            p2 = list(range(n)); rnd.shuffle(p2)
+            atoms = [(p1[a], "C") for a in range(n)]
+            bonds = [(p1[a], p1[b]) for a, b in bonds0]
+            atoms2 = [(500 + p2[a], "C") for a in range(n)]
+            bonds2 = [(500 + p2[a], 500 + p2[b]) for a, b in bonds0]
+            kind = "same"
+            if k % 3 == 2:          # one bond moved: same degree sequence is not guaranteed, the run may end early
+                i = rnd.randrange(len(bonds2))
+                a, _ = bonds2[i]
+                free = [x for x, _e in atoms2 if x != a and (a, x) not in bonds2 and (x, a) not in bonds2]
+                if free:
+                    bonds2[i] = (a, rnd.choice(free))
+                    kind = "bond"
+            for lst in (atoms, bonds, atoms2, bonds2):
+                rnd.shuffle(lst)
+            out.append((f"skeleton:{name}/{kind}", atoms, bonds, atoms2, bonds2, None))
+    return out
+
+
 def corpus_pairs(rnd, limit):
     """corpus molecules (explicit hydrogens, 10-60 atoms) against a renumbered copy of themselves"""
     from . import rdk
@@ -473,7 +513,7 @@ def collect(tier, rep, seed):
     fams = ["smg3", "two", "twop", "twoc", "allylr", "elcyc", "elcyc", "ethene", "star4lp", "tbp", "crg3", "prismr", "scrg2", "ethener", "sn2"]
     if tier != "quick":
         fams += ["star5", "lp2", "oct", "star5r", "cuber", "prismsr", "nopar"]
-    pairs = (random_pairs(rnd, n_small, nmax) + corpus_pairs(rnd, n_corpus)
+    pairs = (random_pairs(rnd, n_small, nmax) + corpus_pairs(rnd, n_corpus) + skeleton_pairs(rnd, 3 if tier == "quick" else 12)
              + family_pairs(rnd, fams, 40 if tier == "quick" else 400) + stereo_corpus_pairs(rnd, 8 if tier == "quick" else 60))
     recs, skipped = record_all(pairs)
     if len(recs) < len(pairs) // 4:
